@@ -47,7 +47,7 @@ def rate_expr(draw, states, params, derived=(), bounded=False, allow_time=True, 
     if dep:
         kinds += ["sat1x", "expdecay"]
         if not bounded:
-            kinds += ["linear", "linear", "mass", "massN", "sat2", "sum"]
+            kinds += ["linear", "linear", "mass", "massN", "sat2", "sum", "absdiff"]
             if allow_time:
                 kinds += ["periodic", "periodic_derived"] if derived else ["periodic"]
     if not dep:
@@ -73,6 +73,10 @@ def rate_expr(draw, states, params, derived=(), bounded=False, allow_time=True, 
         if X is None:
             return k, "const"
         return ir.div(ir.mul(k, X), ir.add(ir.C(1), ir.mul(a, X))), "sat1"
+    if kind == "absdiff":
+        # a rate proportional to the distance of a state from a threshold (or from another state): k*X*|Y - c|
+        other = ir.C(draw(fl(0.5, 12.0, 3))) if draw(st.booleans()) else ir.mul(a, ir.S(draw(st.sampled_from(dep))))
+        return ir.mul(k, X, ir.absdiff(Y, other)), kind
     if kind == "sat2":
         h = draw(coef(params, 0.5, 5.0))
         return ir.div(ir.mul(k, X, Y), ir.add(h, Y)), kind
